@@ -28,6 +28,7 @@ fn factory_for(id: &str) -> Option<(&'static str, Factory)> {
         "C07" => ("C07", |t| Box::new(props::c07::C07::new(t)) as Box<dyn Property>),
         "C08" => ("C08", |t| Box::new(props::c08::C08::new(t)) as Box<dyn Property>),
         "C19" => ("C19", |t| Box::new(props::c19::C19::new(t)) as Box<dyn Property>),
+        "C17" => ("C17", |t| Box::new(props::c17::C17::new(t)) as Box<dyn Property>),
         "C18" => ("C18", |t| Box::new(props::c18::C18::new(t)) as Box<dyn Property>),
         "C16" => ("C16", |t| Box::new(props::c16::C16::new(t)) as Box<dyn Property>),
         "C15" => ("C15", |t| Box::new(props::c15::C15::new(t)) as Box<dyn Property>),
